@@ -23,6 +23,10 @@ type E2E struct {
 	Clients map[string]*client.Client
 	Relays  map[string]*sigfake.Relay
 	Refs    map[string]*client.ClientPeerRef
+	// OnTap, if set, sees every message put on a stream (label "<call>>srv" or
+	// "srv><call>", rendered message): a hook for fault threads that must fire
+	// when a particular message has been forwarded.
+	OnTap func(label, desc string)
 }
 
 // NewE2E builds the relay and one client per named peer, contexts set.
@@ -48,7 +52,11 @@ func NewE2E(peers ...string) *E2E {
 }
 
 func (e *E2E) tapE2E(label string, m any) {
-	vsync.Logf("%s %s", label, e.describe(m))
+	d := e.describe(m)
+	vsync.Logf("%s %s", label, d)
+	if e.OnTap != nil {
+		e.OnTap(label, d)
+	}
 }
 
 // Ref returns (creating if needed) the peer reference from -> to.
@@ -85,6 +93,19 @@ func (e *E2E) Recv(ctx context.Context, at, from string) {
 	}
 }
 
+// RecvOK is Recv that reports whether a message was received (false: the
+// context ended).
+func (e *E2E) RecvOK(ctx context.Context, at, from string) bool {
+	ref := e.Ref(at, from)
+	m, err := ref.Recv(ctx)
+	if err == nil {
+		vsync.LogOrdered("recv %s<%s %s", at, from, string(m.GetSignedMsg().GetData()))
+		return true
+	}
+	vsync.LogOrdered("recv-err %s<%s %v", at, from, err)
+	return false
+}
+
 // BreakSession fails the current Session stream of peer p's client (the
 // server side sees a cancelled context, the client a stream error).
 func (e *E2E) BreakSession(p string) {
@@ -95,6 +116,20 @@ func (e *E2E) BreakSession(p string) {
 	}
 	vsync.Logf("fault: break %s", d.Name)
 	d.Cancel()
+}
+
+// BreakSessionSilently fails the current Session stream of peer p's client on
+// the client side only: the client sees a stream error and retries, while the
+// relay keeps the old call registered (it has not noticed), so the retry
+// usurps it.
+func (e *E2E) BreakSessionSilently(p string) {
+	d := e.Relays[p].LastSession()
+	if d == nil {
+		vsync.Logf("fault: no session for %s", p)
+		return
+	}
+	vsync.Logf("fault: silent break %s", d.Name)
+	d.FailSilently(io.ErrUnexpectedEOF)
 }
 
 // Reattach releases and re-adds p's reference to q.
